@@ -82,8 +82,9 @@ class Val:
     """mode 'rows': synthetic rows (shape given by `style`); mode 'cb': real SequentialCB(['reward']);
     `empty` lists (ek,lk) pairs for which zero rows are returned; `boom` lists pairs that raise."""
 
-    def __init__(self, k, trace, mode="rows", style=0, nrows=3, empty=(), boom=(), big=None):
+    def __init__(self, k, trace, mode="rows", style=0, nrows=3, empty=(), boom=(), big=None, slow=()):
         self.k, self.trace, self.mode, self.style, self.nrows = k, trace, mode, style, nrows
+        self.slow = [list(x) for x in slow]     # (ek,lk) pairs whose evaluation takes 0.5 s (longer than a worker needs to start): reorders the records of a multi-process run
         self.big = big      # {"pairs": [[ek,lk],…], "size": characters in total, "rows": n}: these pairs yield n rows holding long strings
         self.empty = [tuple(x) for x in empty]
         self.boom = [tuple(x) for x in boom]
@@ -95,6 +96,9 @@ class Val:
     def evaluate(self, env, lrn):
         ek, lk = env.params["ek"], lrn.params["lk"]
         _trace(self.trace, "%d %d %d" % (ek, lk, self.k))
+        if [ek, lk] in self.slow:
+            import time
+            time.sleep(0.5)
         if (ek, lk) in self.boom:
             raise Exception("evaluation of (%d,%d,%d) fails by design" % (ek, lk, self.k))
         if (ek, lk) in self.empty:
